@@ -1,6 +1,7 @@
 package checks
 
 import (
+	"fmt"
 	"verifmc/eng"
 	. "verifmc/model"
 )
@@ -96,4 +97,30 @@ func runC09(c *eng.Ctx) {
 			c.Sample(describe(src, d, cfg))
 		}
 	})
+	// "every expression accepted by CreateEvaluator" also means strings nobody would write: every accepted token sequence of the language
+	// explorer's alphabets (a dangling operator, a keyword as identifier, ...) is evaluated on the probe data of C10
+	if _, replayingOther := c.Only["e"]; !replayingOther && c.Want("f", 9) {
+		tokenInputs(c, 9, "i", func(b []byte, co map[string]int) {
+			src := string(b)
+			ev, err := createSafe(src, nil)
+			if err != nil || ev == nil {
+				return
+			}
+			c.R.States++
+			c.R.Traces++
+			c.R.Nontrivial++
+			for di, d := range c10Probes {
+				got := observe(ev, d)
+				c.R.Evaluations++
+				switch {
+				case got.panicked:
+					c.Violate(eng.Violation{Kind: "panic", Key: fmt.Sprintf("expr=%q | probe#%d", src, di), Coords: co, Expected: "returns normally", Observed: got.String(), Detail: got.msg})
+				case got.errTrue:
+					c.Violate(eng.Violation{Kind: "err-with-true", Key: fmt.Sprintf("expr=%q | probe#%d", src, di), Coords: co, Expected: "(false, err)", Observed: got.String(), Detail: got.msg})
+				default:
+					c.Count("accepted-token-sequence:" + SetStr(got.class))
+				}
+			}
+		})
+	}
 }
